@@ -3,6 +3,7 @@ package sim
 import (
 	"fmt"
 	"sort"
+	"strings"
 	"time"
 
 	"github.com/cube2222/octosql/aggregates"
@@ -54,6 +55,21 @@ type triggerCfg struct {
 
 func (c triggerCfg) String() string {
 	return fmt.Sprintf("counting=%d,watermark=%v,eos=%v", c.counting, c.watermark, c.eos)
+}
+
+// Kinds names the configured trigger kinds without parameters (used in violation classes).
+func (c triggerCfg) Kinds() string {
+	var parts []string
+	if c.counting > 0 {
+		parts = append(parts, "counting")
+	}
+	if c.watermark {
+		parts = append(parts, "watermark")
+	}
+	if c.eos {
+		parts = append(parts, "eos")
+	}
+	return strings.Join(parts, "+")
 }
 
 func (c triggerCfg) prototype(timeIdx int) func() execution.Trigger {
@@ -167,6 +183,8 @@ func opScenario(r *Run, mode string) {
 	r.AddSimTime(int64(len(script)) * int64(time.Second))
 
 	src := &ScriptSource{Name: "S", Msgs: script}
+	sourceEnded := false
+	src.OnEOS = func() { sourceEnded = true }
 	in := NewMS()
 	for _, m := range script {
 		if m.Kind == MsgRec {
@@ -220,7 +238,7 @@ func opScenario(r *Run, mode string) {
 			[]func() nodes.Aggregate{aggregates.CountOverloads[0].Prototype, aggregates.SumOverloads[0].Prototype},
 			[]execution.Expression{varB, varB}, []execution.Expression{varA, varT}, timeIdx, src, tcfg.prototype(1))
 		want = refGroupBy(in, []int{0, 2}, 1)
-		attrs["trigger"] = tcfg.String()
+		attrs["trigger"] = tcfg.Kinds()
 	case "lookup_join":
 		recs := make([]execution.Record, len(lookupRows))
 		for i := range lookupRows {
@@ -263,7 +281,11 @@ func opScenario(r *Run, mode string) {
 			r.Violate("C15", "retract_absent", attrs, "operator retracted a row that is not present: %s", RowString(rec.Values))
 		}
 		if mode == "C18" && !rec.EventTime.IsZero() && !lastWM.IsZero() && !rec.EventTime.After(lastWM) {
-			r.Violate("C18", "late_record", attrs, "record %s emitted with event time %s at or below already emitted watermark %s",
+			a := cloneAttrs(attrs)
+			if sourceEnded && opNames[op] == "custom_trigger_group_by" {
+				a["cause"] = "group_by_end_of_stream_emission"
+			}
+			r.Violate("C18", "late_record", a, "record %s emitted with event time %s at or below already emitted watermark %s",
 				RowString(rec.Values), Sec(rec.EventTime), Sec(lastWM))
 		}
 		if opNames[op] == "order_by" && !rec.Retraction {
